@@ -6,7 +6,7 @@ SOURCES = ['repo:src/InputFunctions/DomainGeometry/*.cpp', 'repo:src/InputFuncti
            'repo:src/InputFunctions/ExactSolution/cartesianR*.cpp', 'repo:src/InputFunctions/ExactSolution/polarR6_Ci*.cpp',
            'repo:src/InputFunctions/ExactSolution/polarR6_Cz*.cpp', 'repo:src/InputFunctions/ExactSolution/polarR6_S*.cpp',
            'repo:src/InputFunctions/SourceTerms/*_Poisson_CircularGeometry.cpp', 'repo:src/InputFunctions/SourceTerms/*_Poisson_ShafranovGeometry.cpp', 'harness/C19.cpp']
-FLAGS = ['-DNDEBUG']
+FLAGS = ['-DNDEBUG', '-include', '/verif/harness/vpi.h']   # M_PI as an opaque constant, see harness/vpi.h
 ASSUMPTIONS = [
     'decided: (1) the four Jacobian functions of Circular, Shafranov and Czarny geometry are the formal partial derivatives of Fx, Fy at every (r, theta), with sin(theta), cos(theta) as symbols s, c (s^2 + c^2 = 1, ds/dtheta = c, dc/dtheta = -s), parameters at their defaults and symbolic in (0,1) x (0,inf); Culham: the theta-derivatives at a concrete radius (its radial profiles are tabulated); (2) beta * alpha = 1 and alpha > 0 for the three gyro profiles for every 0 < r <= Rmax; (3) u_D and u_D_Interior equal the exact solution at every point, for the 9 (problem, geometry) pairs',
     'source term = -div(alpha grad u) + beta u in the metric of the mapping: decided for PolarR6 / Poisson / Circular only (formal second derivatives of the exact solution, z3); NOT decided for the other 63 classes (Cartesian problems: compile-time rounded powers of pi make exact equality false by ~1e-16; larger classes: solver time), the radial derivatives of the Culham mapping (tabulated ODE solution), the selection tables of select_test_case.cpp',
@@ -19,7 +19,7 @@ BOUNDS = {'quick': 'Jacobians: 4 geometries (default and symbolic parameters); 3
 # source-term identity: only the class z3 decides exactly.  CartesianR2/R6 (both geometries): the shipped formulas contain compile-time
 # rounded powers of pi (8.0 * (M_PI * M_PI) is one double), so exact equality with the formal derivative fails by ~1e-16 relative
 # (solver models do not reproduce natively: treated as inconclusive, not as findings); PolarR6 on Shafranov: timeout at 240 s.
-SOURCE_CLASSES = ((2, 0),)
+SOURCE_CLASSES = ((2, 0), (0, 0), (1, 0), (0, 1), (1, 1), (2, 1))
 
 
 def jobs(tier, seed):
@@ -37,7 +37,7 @@ def jobs(tier, seed):
     PN = ('CartesianR2', 'CartesianR6', 'PolarR6')
     for (pr, g) in SOURCE_CLASSES:
         if True:
-            J.append(dict(entry='h_source_term', args=[pr, g], label=f'source term {PN[pr]} Poisson {GN[g]}', cls='source-term', reach=['classes-built'], eager=False, diff=True, witness=False,
+            J.append(dict(entry='h_source_term', args=[pr, g], label=f'source term {PN[pr]} Poisson {GN[g]}', cls='source-term', reach=['classes-built'], eager=False, diff=True, witness=False, decimal_literals=True,
                           cap_quick=240, cap_thorough=600))
     return J
 
